@@ -441,6 +441,16 @@ impl Prop for C16Prop {
             }
         }
     }
+    fn describe(&self, sec: &str, input: &Input, tier: Tier) -> Option<Value> {
+        let Input::Bytes(bytes) = input else { return None };
+        if sec == "closures" {
+            let mut c = Choices::new(bytes);
+            let (defs, closed, open) = gen_closure_session(&mut c);
+            return Some(json!({"section": "closures", "definitions": defs.join("\n"), "closed": closed, "open": open}));
+        }
+        let s = decode(bytes, tier);
+        Some(json!({"definitions": s.helpers.iter().map(|h| render_helper(h, false)).collect::<Vec<_>>().join("\n"), "closed": render_expr(&s.closed), "open": render_expr(&s.open)}))
+    }
     fn replay(&self, case: &Value, st: &mut Stats) -> Option<Verdict> {
         let defs: Vec<String> = case.get("definitions")?.as_str()?.lines().filter(|l| !l.trim().is_empty()).map(|l| l.to_string()).collect();
         let e = case.get("expression")?.as_str()?;
@@ -487,7 +497,7 @@ impl Prop for C16Prop {
                             repl_eval(&mut r3, d);
                         }
                         match repl_eval(&mut r3, &quoted) {
-                            Res::Constant(c) if c == a && quoted != e => Some(id),
+                            Res::Constant(c) if c == a && crate::gen_text::tokenize(e).iter().any(|t| matches!(t.as_str(), "x" | "y" | "z")) => Some(id),
                             _ => None,
                         }
                     }
